@@ -316,6 +316,34 @@ def method(eng, st, recv, name, args, kwargs):
         return int_from_bytes(eng, st, args, kwargs)
     if isinstance(recv, (int, SInt, SBits)) and name == "to_bytes":
         return int_to_bytes(eng, st, recv, args, kwargs)
+    if isinstance(recv, str) and name == "format" and (any(isinstance(a, (Sym, Ref)) for a in args) or any(isinstance(a, (Sym, Ref)) for a in kwargs.values())):
+        # '...{}...{name}...'.format(symbolic values): the same pieces an f-string would give (simple fields only)
+        import string
+        if any(type(a).__name__ == "ExternalValue" for a in list(args) + list(kwargs.values())):
+            raise EngineUnsupported("str.format of a caller-supplied value")
+        segs, auto = [], 0
+        for lit, field, spec, conv in string.Formatter().parse(recv):
+            if lit:
+                segs.append(lit)
+            if field is None:
+                continue
+            if field == "":
+                if auto >= len(args):
+                    return Cases([(True, RaiseExc(IndexError, "Replacement index out of range for positional args tuple"))])
+                v = args[auto]
+                auto += 1
+            elif field.isdigit():
+                if int(field) >= len(args):
+                    return Cases([(True, RaiseExc(IndexError, "Replacement index out of range for positional args tuple"))])
+                v = args[int(field)]
+            elif field.isidentifier():
+                if field not in kwargs:
+                    return Cases([(True, RaiseExc(KeyError, field))])
+                v = kwargs[field]
+            else:
+                raise EngineUnsupported(f"str.format field {field!r}")
+            segs += eng.format_value(st, v, spec or "", -1 if conv is None else ord(conv))
+        return norm(SStr(segs))
     if isinstance(recv, str):
         if all(not isinstance(a, Sym) for a in args):
             try:
